@@ -277,6 +277,34 @@ def delivery_sites(program, rep, prop, want):
         rep.count('paths', len(exits))
         bad = {}
         okn = {'deliver': 0, 'deref': 0}
+        # every listener is visited: no early exit from the loop
+        def _early(stmts):
+            for s_ in stmts:
+                if isinstance(s_, (ast.Break, ast.Return)):
+                    return s_
+                if isinstance(s_, (ast.For, ast.While, ast.FunctionDef)):
+                    r_ = next((x for x in ast.walk(s_)
+                               if isinstance(x, ast.Return)), None)
+                    if r_ is not None and not isinstance(s_, ast.FunctionDef):
+                        return r_
+                    continue
+                for fld in ('body', 'orelse', 'finalbody'):
+                    sub_ = getattr(s_, fld, None)
+                    if isinstance(sub_, list) and sub_ and isinstance(
+                            sub_[0], ast.stmt):
+                        r_ = _early(sub_)
+                        if r_ is not None:
+                            return r_
+                for h_ in getattr(s_, 'handlers', []) or []:
+                    r_ = _early(h_.body)
+                    if r_ is not None:
+                        return r_
+            return None
+        ee = _early(loop.body)
+        if ee is not None and 'deliver' in want:
+            bad.setdefault('deliver', (
+                ee, 'the listener loop can stop early (break / return): the '
+                'listeners after a dead or skipped one are not called'))
         for ex in exits:
             tr = ex.state.trace
             iters = []
